@@ -539,7 +539,11 @@ def model_value(kind, v):
         return items
     if kind == 'str':
         try:
-            return v.as_string()
+            import re as _re
+            # z3 prints characters outside printable ASCII as \u{hex} (and \xhh in older versions): give the replay the characters themselves
+            t = v.as_string()
+            t = _re.sub(r'\\u\{([0-9a-fA-F]+)\}', lambda m: chr(int(m.group(1), 16)), t)
+            return _re.sub(r'\\x([0-9a-fA-F]{2})', lambda m: chr(int(m.group(1), 16)), t)
         except Exception:
             return str(v)
     return str(v)
